@@ -53,6 +53,7 @@ def m_arrayDelete(a):
 
 def m_arrayExtend(a):
     _need(len(a) == 2 and isinstance(a[0], list) and isinstance(a[1], list), 'arrayExtend')
+    _no_cycle(a[0], list(a[1]), 'arrayExtend')
     a[0].extend(list(a[1]))
     return a[0]
 
@@ -129,8 +130,24 @@ def m_arrayPop(a):
     return a[0].pop()
 
 
+def _contains(value, target, depth=0):
+    """Is the container `target` reachable from `value` (identity)?"""
+    if value is target:
+        return True
+    if depth > 60 or not isinstance(value, (list, dict)):
+        return False
+    return any(_contains(x, target, depth + 1) for x in (value if isinstance(value, list) else value.values()))
+
+
+def _no_cycle(container, values, fn):
+    # a container stored inside itself cannot be compared, printed or serialised: what the library makes of it afterwards is not specified
+    if any(_contains(v, container) for v in values):
+        raise UnspecifiedResult('%s would build a cyclic structure' % fn)
+
+
 def m_arrayPush(a):
     _need(len(a) >= 1 and isinstance(a[0], list), 'arrayPush')
+    _no_cycle(a[0], a[1:], 'arrayPush')
     a[0].extend(a[1:])
     return a[0]
 
@@ -138,6 +155,7 @@ def m_arrayPush(a):
 def m_arraySet(a):
     _need(len(a) in (2, 3) and isinstance(a[0], list) and is_index(a[1]) and a[1] < len(a[0]), 'arraySet')
     value = a[2] if len(a) == 3 else None
+    _no_cycle(a[0], [value], 'arraySet')
     a[0][int(a[1])] = value
     return value
 
@@ -176,6 +194,7 @@ def m_arraySort(a, call=None):
 
 def m_objectAssign(a):
     _need(len(a) == 2 and isinstance(a[0], dict) and isinstance(a[1], dict), 'objectAssign')
+    _no_cycle(a[0], list(a[1].values()), 'objectAssign')
     a[0].update(a[1])
     return a[0]
 
@@ -222,6 +241,7 @@ def m_objectNew(a):
 def m_objectSet(a):
     _need(len(a) in (2, 3) and isinstance(a[0], dict) and isinstance(a[1], str), 'objectSet')
     value = a[2] if len(a) == 3 else None
+    _no_cycle(a[0], [value], 'objectSet')
     a[0][a[1]] = value
     return value
 
